@@ -315,10 +315,27 @@ func execDmsg(t []string) string {
 	if err := m.Serialize(w); err != nil {
 		return "err"
 	}
-	return fmt.Sprintf("ok %d %s", len(b)-r.Len(), hx.Hex(w.Bytes()))
+	if len(t) > 3 && t[3] == "own" {
+		return fmt.Sprintf("ok %d %s", len(b)-r.Len(), hx.Hex(w.Bytes()))
+	}
+	return fmt.Sprintf("ok %d", len(b)-r.Len())
 }
 
 func dmsgOracle(t []string, out string) *hx.Violation {
+	// allocation: the codec alone on the supplied bytes
+	if mk, ok := codecTypes[t[1]]; ok {
+		b := hx.UnHex(t[2])
+		curOp.Store(strings.Join(t, " "))
+		curStart.Store(time.Now().UnixNano())
+		a := wire.Measure(func() {
+			defer func() { recover() }()
+			mk().Deserialize(bytes.NewReader(b))
+		})
+		curStart.Store(0)
+		if limit := uint64(boundK*len(b) + boundC); a > limit {
+			return &hx.Violation{Kind: "alloc-unbounded", Detail: fmt.Sprintf("decoding a %d-byte %s payload allocated %d bytes (bound %d)", len(b), t[1], a, limit)}
+		}
+	}
 	own := len(t) > 3 && t[3] == "own"
 	f := strings.Fields(out)
 	if own && (len(f) != 3 || f[0] != "ok" || f[2] != t[2]) {
@@ -341,6 +358,9 @@ func genDmsg(g *hx.Gen) {
 			g.Emit("dmsg %s %s own", n, hx.Hex(b))
 			if len(b) > 0 {
 				g.Emit("dmsg %s %s", n, hx.Hex(b[:r.Intn(len(b))]))
+				// hostile counts / flipped bytes (count-sized allocations, panics)
+				g.Emit("dmsg %s %s", n, hx.Hex(wire.Mutate(r, b)))
+				g.Emit("dmsg %s %s", n, hx.Hex(wire.Mutate(r, b)))
 			}
 		}
 	}
